@@ -238,6 +238,13 @@ class CBuild:
         shutil.rmtree(self.dir, ignore_errors=True)
 
 
+WRAP = ["-Wl,--wrap=malloc,--wrap=calloc,--wrap=realloc,--wrap=strdup,--wrap=free,--wrap=fopen,--wrap=fclose"]
+
+
+def alloc_sources():
+    return [os.path.join(CDIR, "verif_alloc.c")]
+
+
 ASAN_ENV = {"ASAN_OPTIONS": "detect_leaks=0:abort_on_error=0:exitcode=99:allocator_may_return_null=1",
             "UBSAN_OPTIONS": "halt_on_error=1:exitcode=98"}
 
